@@ -108,7 +108,7 @@ fn push_vacant_registers_single_pattern() {
     let mut asm = MockAssembler::new();
     assert!(asm.push(info_of::<FnA>(), mk_builder(mode, minimum, k, None, 1)).is_ok());
     assert!(asm.fn_mockers.len() == 1);
-    let fm = asm.fn_mockers.values().next().unwrap();
+    let fm = asm.fn_mockers.first_key_value().unwrap().1;
     assert!(fm.pattern_match_mode == mode);
     assert!(fm.info.type_id == TypeId::of::<FnA>());
     assert!(fm.call_patterns.len() == 1);
@@ -129,19 +129,18 @@ fn finish_preserves_declaration_order() {
     let l0: Option<u32> = if kani::any() { Some(kani::any()) } else { None };
     let l1: Option<u32> = if kani::any() { Some(kani::any()) } else { None };
     let l2: Option<u32> = if kani::any() { Some(kani::any()) } else { None };
-    assert!(asm.push(info_of::<FnA>(), mk_builder(PatternMatchMode::InAnyOrder, 10, 1, l0, 0)).is_ok());
     {
-        // extend the registered list directly (no key search: see push_vacant_registers_single_pattern)
-        let fm = asm.fn_mockers.values_mut().next().unwrap();
-        fm.call_patterns.reserve(2);
-        let p1 = ph::mk_pattern_with(ph::mk_matcher(l1), ch::mk_counter(kani::any(), 11, 1));
-        let p2 = ph::mk_pattern_with(ph::mk_matcher(l2), ch::mk_counter(kani::any(), 12, 1));
-        fm.call_patterns.push(p1);
-        fm.call_patterns.push(p2);
+        // register a method with three patterns directly (the occupied-entry path of push is out of CBMC's reach)
+        let mut ps: Vec<CallPattern> = Vec::with_capacity(3);
+        ps.push(ph::mk_pattern_with(ph::mk_matcher(l0), ch::mk_counter(kani::any(), 10, 1)));
+        ps.push(ph::mk_pattern_with(ph::mk_matcher(l1), ch::mk_counter(kani::any(), 11, 1)));
+        ps.push(ph::mk_pattern_with(ph::mk_matcher(l2), ch::mk_counter(kani::any(), 12, 1)));
+        let fm = FnMocker { info: info_of::<FnA>(), pattern_match_mode: PatternMatchMode::InAnyOrder, call_patterns: ps };
+        asm.fn_mockers.insert(TypeId::of::<FnA>(), fm);
     }
     let map = asm.finish();
     assert!(map.len() == 1);
-    let fm = map.values().next().unwrap();
+    let fm = map.first_key_value().unwrap().1;
     assert!(fm.call_patterns.len() == 3);
     assert!(ch::peek_expectation(&fm.call_patterns[0].call_counter).0 == 10);
     assert!(ch::peek_expectation(&fm.call_patterns[1].call_counter).0 == 11);
@@ -163,19 +162,18 @@ fn finish_preserves_declaration_order_witness() {
     let l0: Option<u32> = Some(30);
     let l1: Option<u32> = Some(20);
     let l2: Option<u32> = None;
-    assert!(asm.push(info_of::<FnA>(), mk_builder(PatternMatchMode::InAnyOrder, 10, 1, l0, 0)).is_ok());
     {
-        // extend the registered list directly (no key search: see push_vacant_registers_single_pattern)
-        let fm = asm.fn_mockers.values_mut().next().unwrap();
-        fm.call_patterns.reserve(2);
-        let p1 = ph::mk_pattern_with(ph::mk_matcher(l1), ch::mk_counter(kani::any(), 11, 1));
-        let p2 = ph::mk_pattern_with(ph::mk_matcher(l2), ch::mk_counter(kani::any(), 12, 1));
-        fm.call_patterns.push(p1);
-        fm.call_patterns.push(p2);
+        // register a method with three patterns directly (the occupied-entry path of push is out of CBMC's reach)
+        let mut ps: Vec<CallPattern> = Vec::with_capacity(3);
+        ps.push(ph::mk_pattern_with(ph::mk_matcher(l0), ch::mk_counter(kani::any(), 10, 1)));
+        ps.push(ph::mk_pattern_with(ph::mk_matcher(l1), ch::mk_counter(kani::any(), 11, 1)));
+        ps.push(ph::mk_pattern_with(ph::mk_matcher(l2), ch::mk_counter(kani::any(), 12, 1)));
+        let fm = FnMocker { info: info_of::<FnA>(), pattern_match_mode: PatternMatchMode::InAnyOrder, call_patterns: ps };
+        asm.fn_mockers.insert(TypeId::of::<FnA>(), fm);
     }
     let map = asm.finish();
     assert!(map.len() == 1);
-    let fm = map.values().next().unwrap();
+    let fm = map.first_key_value().unwrap().1;
     assert!(fm.call_patterns.len() == 3);
     assert!(ch::peek_expectation(&fm.call_patterns[0].call_counter).0 == 10);
     assert!(ch::peek_expectation(&fm.call_patterns[1].call_counter).0 == 11);
